@@ -82,8 +82,8 @@ def kernels(ctx, prog):
             ctx.add(Ob('charclass/%s=ABNF' % name, 'M', INCONCLUSIVE, detail=v.note))
 
 
-def audits(ctx, prog):
-    A = Auditor(ctx, prog)
+def audits(ctx, prog, only=None):
+    A = Auditor(ctx, prog, only=only)
 
     # ---------------------------------------------------------------- constructors of the plain DID type validate
     def validated(p, base_pred):
